@@ -451,7 +451,7 @@ Variable vp8 : list Z -> res (Z * Z * list Z * list Z * list Z).
 
 Lemma valid_anim_file c ms :
   wf c = true -> anim c = true -> Forall2 (frame_decodes vp8 (fst (dims c)) (snd (dims c))) (frames c) ms ->
-  fst (dims c) * snd (dims c) * 4 < 4294967296 -> forall dec, anim_view c dec -> Anim_play.valid_file (anim_file c ms).
+  fst (dims c) * snd (dims c) * 4 < 18446744073709551616 -> forall dec, anim_view c dec -> Anim_play.valid_file (anim_file c ms).
 Proof.
   intros Hwf Ha HF2 Hcanvas dec (_ & _ & _ & _ & _ & _ & _ & Hbg4 & Rw & Rh & _).
   unfold Anim_play.valid_file, anim_file. cbn [Anim.m_w Anim.m_h Anim.m_bg_stored Anim.m_frames].
@@ -497,7 +497,7 @@ Qed.
 (* THE COMPOSITION.  [ms]: the frames of the file decoded per the specifications (frame_decodes) *)
 Theorem play_from_file c ms :
   wf c = true -> anim c = true -> Forall2 (frame_decodes vp8 (fst (dims c)) (snd (dims c))) (frames c) ms ->
-  fst (dims c) * snd (dims c) * 4 < 4294967296 ->
+  fst (dims c) * snd (dims c) * 4 < 18446744073709551616 ->
   Anim_play.valid_file (anim_file c ms) /\
   exists dec, M.new (serialize c) = Ok dec /\
     forall buf, len buf = buffer_size c ->
@@ -548,7 +548,7 @@ Qed.
    every frame being Spec.VP8L's / Spec.YUV + Spec.Alpha's of its payload; one more call returns NoMoreFrames. *)
 Theorem read_frame_from_file_spec c ms :
   wf c = true -> anim c = true -> Forall2 (frame_decodes vp8 (fst (dims c)) (snd (dims c))) (frames c) ms ->
-  fst (dims c) * snd (dims c) * 4 < 4294967296 ->
+  fst (dims c) * snd (dims c) * 4 < 18446744073709551616 ->
   exists dec, M.new (serialize c) = Ok dec /\ M.num_frames dec = Z.of_nat (length ms) /\ (forall buf, len buf = buffer_size c ->
       (forall k, (k < length ms)%nat ->
          nth_error (play vp8 dec (S (length ms)) buf) k =
